@@ -3,7 +3,7 @@
 cd /verif
 for d in seeded/*/; do
   id=$(basename $d); prop=${id%%-*}
-  out=$(bash run/seedtest.sh $prop $d/patch.diff 2>&1)
+  out=$(bash run/seedtest.sh $prop /verif/${d}patch.diff 2>&1)
   if echo "$out" | grep -q "VIOLATION property=$prop"; then
     echo "$id CAUGHT $(echo "$out" | grep -o 'VIOLATION.*' | sed 's/replay=[^ ]*//' | head -1) $(echo "$out" | grep -c 'failing input') failing-input-lines"
   else
